@@ -206,4 +206,19 @@ def run(rd, emit, log, enum_values, ti_default):
     if rm is None: log.append('C17: file removal in DeleteObjectHelper not recognised')
     body += '(* true = DeleteObjectHelper (the recursive part) removes the file of each _api object; false = only DeleteObject (top level) does *)\n'
     body += 'Definition f_cw_delete_helper_removes_file : option bool := %s.\n' % ('Some ' + rm if rm else 'None')
+    # ---- the five host!name | host!service!name composers: are more than three parts / an empty middle part rejected?
+    ex3 = []
+    for fn, cls in (('notification', 'Notification'), ('dependency', 'Dependency'), ('scheduleddowntime', 'ScheduledDowntime'),
+                    ('comment', 'Comment'), ('downtime', 'Downtime')):
+        b = fn_body(rd('lib/icinga/%s.cpp' % fn), r'Dictionary::Ptr\s+%sNameComposer::ParseName\s*\(' % cls)
+        v = None
+        if b and re.search(r'name\.Split\("!"\)', b) and re.search(r'tokens\.size\(\)\s*<\s*2', b):
+            guard = b[:b.find('new Dictionary')] if 'new Dictionary' in b else b
+            if re.search(r'tokens\.size\(\)\s*>\s*3', guard) and re.search(r'tokens\[1\]\.IsEmpty\(\)', guard): v = 'true'
+            elif not re.search(r'tokens\.size\(\)\s*(>|!=|==)\s*3', guard) and 'IsEmpty' not in guard: v = 'false'
+        ex3.append(v)
+    c3 = ex3[0] if all(v is not None and v == ex3[0] for v in ex3) else None
+    if c3 is None: log.append('C17: composite NameComposer::ParseName functions not recognised / not uniform: %s' % ex3)
+    body += "(* Notification/Dependency/ScheduledDowntime/Comment/Downtime ParseName: true = at most three '!'-separated parts and a non-empty middle part; false = further parts dropped *)\n"
+    body += 'Definition f_cw_composite_name_exact : option bool := %s.\n' % ('Some ' + c3 if c3 else 'None')
     emit('Facts_c17.v', body)
